@@ -280,6 +280,9 @@ func runC10(c *Ctx) {
 		}
 		if c.Thorough() {
 			c.Explore(waitScenario(waitCase{prop: "C10", kind: kind, limit: 2, waiters: 2, outcome: 0, holders2: true}), opt)
+		} else {
+			// limit 2, both holders release, two waiters: one preemption
+			c.Explore(waitScenario(waitCase{prop: "C10", kind: kind, limit: 2, waiters: 2, outcome: 2, holders2: true}), mc.Options{PreemptBound: 1})
 		}
 	}
 	// stale helpers: one poll period elapses before the release
